@@ -327,8 +327,6 @@ class LowerBound:
                 q = float(sut(sk.query, k))
                 if q < min(t, nr + 1):
                     raise Violation(f"{cfg['kind']} sketch {i}: query({k!r})={q} below min(true={t}, num_reserved+1={nr+1})", "log-lower-bound")
-                if float(sut(sk.__getitem__, k)) != q:
-                    raise Violation("sketch[k] != query(k)", "getitem")
                 free = any(all(cells[o][r] != cells[k][r] for o in pos if o != k) for r in range(cfg["depth"]))
                 if free and t <= nr + 1 and q != float(t):
                     raise Violation(f"{cfg['kind']} sketch {i}: key {k!r} is collision-free in a row and has true count {t} <= num_reserved+1={nr+1} but query()={q}", "log-reserved-not-exact")
